@@ -1,6 +1,6 @@
 (* Run/Api.v — runners for the deframer family (DF) and the API-history family (API).
    They decode an int-encoded case, run the MODEL, and encode what a caller observes. *)
-From FB Require Import Sem.Base Model.Fb Model.Deframers Model.Script Model.Escape Run.Codec.
+From FB Require Import Sem.Base Model.Fb Model.Deframers Model.Script Model.Escape Spec.Api Run.Codec.
 Open Scope Z_scope.
 
 Section R.
@@ -46,8 +46,8 @@ Fixpoint parse_steps (fuel : nat) (n : nat) (l : list Z) : list rstep * list Z :
   | c :: t =>
     let '(st, r) :=
       if c =? 0 then (SByte, t) else if c =? 1 then (STryByte, t)
-      else if c =? 2 then (SBytes (hd 0 t), tl t) else if c =? 3 then (STryBytes (hd 0 t), tl t)
-      else if c =? 4 then (SCopy (hd 0 t), tl t) else if c =? 5 then (STryExact (hd 0 t), tl t)
+      else if c =? 2 then (SBytes (Z.to_N (hd 0 t)), tl t) else if c =? 3 then (STryBytes (Z.to_N (hd 0 t)), tl t)
+      else if c =? 4 then (SCopy (Z.to_N (hd 0 t)), tl t) else if c =? 5 then (STryExact (Z.to_N (hd 0 t)), tl t)
       else if c =? 6 then (SAll, t)
       else match t with
            | some :: k :: t2 => let '(body, r2) := parse_steps f (Z.to_nat k) t2 in (SNested body (negb (some =? 0)), r2)
@@ -56,7 +56,6 @@ Fixpoint parse_steps (fuel : nat) (n : nat) (l : list Z) : list rstep * list Z :
     let '(sts, r') := parse_steps f m r in (st :: sts, r')
   end end end.
 
-Notation MF := (M fb).
 (* observation of the state after each op *)
 Definition obs_z (r : res fb Z) : Z := match r with Val z _ => z | Panic _ => PANIC end.
 Definition post (SIZE : Z) (s : fb) : list Z :=
@@ -64,85 +63,75 @@ Definition post (SIZE : Z) (s : fb) : list Z :=
       :: match readable s with Val l _ => enc_bytes l | Panic _ => [PANIC] end.
 
 Definition enc_io_z (r : io Z) : list Z := match r with Ok n => [0; n] | Err k => [1; enc_ekind k] end.
+Definition enc_obs (v : obs) : list Z :=
+  match v with
+  | VUnit => []
+  | VZ z => [z]
+  | VBool b => [enc_bool b]
+  | VBytes l => enc_bytes l
+  | VOptZ o => match o with None => [0] | Some b => [1; b] end
+  | VOptBytes o => enc_opt_bytes o
+  | VCopy n d => n :: enc_bytes d
+  | VExact o d => (match o with None => 0 | Some _ => 1 end) :: enc_bytes d
+  | VIoRead r d => enc_io_z r ++ enc_bytes d
+  | VWrite q => match q with Ok n => [0; n] | Err _ => [1] end
+  | VWriteStr q => match q with Ok _ => [0] | Err _ => [1] end
+  | VIo r => enc_io_z r
+  | VIoUnit q => match q with Ok _ => [0] | Err k => [1; enc_ekind k] end
+  | VDeframe q => match q with
+                  | Ok None => [0; 0]
+                  | Ok (Some (a, b)) => [0; 1; a; b]
+                  | Err k => [1; enc_ekind k] end
+  | VParse o => match o with None => [0] | Some log => 1 :: log end
+  end.
 
-(* one op: returns (result encoding, new state, remaining input); a panic yields [PANIC] and the state at the panic *)
-Definition fin {A} (enc : A -> list Z) (r : res fb A) : list Z * fb :=
-  match r with Val a s => (enc a, s) | Panic s => ([PANIC], s) end.
+Definition one_shot_ans (tag a b : Z) (data : list Z) (dest : list Z) : rd_res :=
+  fst (sr_read {| sr_stream := data; sr_script := [(tag, a, b)]; sr_log := [] |} dest).
 
-Definition one_shot_reader (tag a b : Z) (data : list Z) : sreader :=
-  {| sr_stream := data; sr_script := [(tag, a, b)]; sr_log := [] |}.
-
-Definition run_op (SIZE : Z) (fuel : nat) (s : fb) (l : list Z) : (list Z * fb) * list Z :=
+(* decode one operation of Spec.Api.op; None = the runner-only op 22 (Copy) *)
+Definition dec_op (fuel : nat) (l : list Z) : option op * list Z :=
   match l with
-  | [] => (([], s), [])
+  | [] => (None, [])
   | c :: t =>
-    if c =? 0 then (fin (fun z => [z]) (len chk s), t)
-    else if c =? 1 then (fin (fun b => [enc_bool b]) (is_empty s), t)
-    else if c =? 2 then (fin enc_bytes (readable s), t)
-    else if c =? 3 then (fin enc_bytes (mem_ s), t)
-    else if c =? 4 then (fin (fun _ => []) (clear s), t)
-    else if c =? 5 then (fin (fun _ => []) (shift chk s), t)
-    else if c =? 6 then (fin (fun z => [z]) (read_byte chk s), t)
-    else if c =? 7 then (fin (fun o => match o with None => [0] | Some b => [1; b] end) (try_read_byte chk s), t)
-    else if c =? 8 then (fin enc_bytes (read_bytes chk (hd 0 t) s), tl t)
-    else if c =? 9 then (fin enc_opt_bytes (try_read_bytes chk (hd 0 t) s), tl t)
-    else if c =? 10 then (fin enc_bytes (read_all chk s), t)
-    else if c =? 11 then (fin (fun r => fst r :: enc_bytes (snd r))
-                              (read_and_copy_bytes chk (repeat 221 (Z.to_nat (hd 0 t))) s), tl t)
-    else if c =? 12 then (fin (fun r => (match fst r with None => 0 | Some _ => 1 end) :: enc_bytes (snd r))
-                              (try_read_exact chk (repeat 221 (Z.to_nat (hd 0 t))) s), tl t)
-    else if c =? 13 then (fin (fun r => enc_io_z (fst r) ++ enc_bytes (snd r))
-                              (io_read chk (repeat 221 (Z.to_nat (hd 0 t))) s), tl t)
-    else if c =? 14 then let '(d, r) := take_list t in
-                         (fin (fun q => match q with Ok n => [0; n] | Err _ => [1] end) (write_bytes chk d s), r)
-    else if c =? 15 then let '(d, r) := take_list t in
-                         (fin (fun q => match q with Ok _ => [0] | Err _ => [1] end) (write_str chk d s), r)
-    else if c =? 16 then let '(d, r) := take_list t in (fin enc_io_z (io_write chk d s), r)
-    else if c =? 17 then (fin (fun q => match q with Ok _ => [0] | Err k => [1; enc_ekind k] end) (io_flush s), t)
-    else if c =? 18 then
-      (* writable(): scribble min(k, wlen) bytes at its start, then wrote(n) *)
-      let '(d, r) := take_list t in
-      let n := hd 0 r in
-      (fin (fun _ => [])
-           ((w <- writable ;;
-             let k := Z.min (zlen d) (vlen w) in
-             dst <- view_sub w 0 k ;;
-             view_copy_from_slice dst (firstn (Z.to_nat k) d) ;;;
-             wrote chk n) s), tl r)
+    if c =? 0 then (Some OLen, t) else if c =? 1 then (Some OIsEmpty, t)
+    else if c =? 2 then (Some OReadable, t) else if c =? 3 then (Some OMem, t)
+    else if c =? 4 then (Some OClear, t) else if c =? 5 then (Some OShift, t)
+    else if c =? 6 then (Some OReadByte, t) else if c =? 7 then (Some OTryReadByte, t)
+    else if c =? 8 then (Some (OReadBytes (hd 0 t)), tl t)
+    else if c =? 9 then (Some (OTryReadBytes (hd 0 t)), tl t)
+    else if c =? 10 then (Some OReadAll, t)
+    else if c =? 11 then (Some (OReadCopy (repeat 221 (Z.to_nat (hd 0 t)))), tl t)
+    else if c =? 12 then (Some (OTryReadExact (repeat 221 (Z.to_nat (hd 0 t)))), tl t)
+    else if c =? 13 then (Some (OIoRead (repeat 221 (Z.to_nat (hd 0 t)))), tl t)
+    else if c =? 14 then let '(d, r) := take_list t in (Some (OWriteBytes d), r)
+    else if c =? 15 then let '(d, r) := take_list t in (Some (OWriteStr d), r)
+    else if c =? 16 then let '(d, r) := take_list t in (Some (OIoWrite d), r)
+    else if c =? 17 then (Some OIoFlush, t)
+    else if c =? 18 then let '(d, r) := take_list t in (Some (OWritableWrote d (hd 0 r)), tl r)
     else if c =? 19 then
-      (* copy_once_from a one-shot reader: tag a b, data *)
       match t with
-      | tag :: a :: b :: t2 =>
-        let '(d, r) := take_list t2 in
-        let out := copy_once_from chk SR (s, one_shot_reader tag a b d) in
-        (match out with
-         | Val q (s', rs) => (enc_io_z q ++ enc_bytes (rev (sr_log rs)), s')
-         | Panic (s', rs) => (PANIC :: enc_bytes (rev (sr_log rs)), s')
-         end, r)
-      | _ => (([], s), [])
+      | tag :: a :: b :: t2 => let '(d, r) := take_list t2 in (Some (OCopyOnce (one_shot_ans tag a b d)), r)
+      | _ => (None, [])
       end
-    else if c =? 20 then
-      (fin (fun q => match q with
-                     | Ok None => [0; 0]
-                     | Ok (Some (a, b)) => [0; 1; a; b]
-                     | Err k => [1; enc_ekind k] end)
-           (deframe chk (df_sel (hd 0 t)) s), tl t)
+    else if c =? 20 then (Some (ODeframe (df_sel (hd 0 t))), tl t)
     else if c =? 21 then
-      (* try_parse: some k steps *)
       match t with
       | some :: k :: t2 =>
-        let '(body, r) := parse_steps fuel (Z.to_nat k) t2 in
-        (fin (fun o => match o with None => [0] | Some log => 1 :: log end)
-             (try_parse (closure chk body (negb (some =? 0))) s), r)
-      | _ => (([], s), [])
+        let '(body, r) := parse_steps fuel (Z.to_nat k) t2 in (Some (OTryParse body (negb (some =? 0))), r)
+      | _ => (None, [])
       end
-    else if c =? 22 then
-      (* let copy = buf (Copy); report copy == buf and keep using the copy *)
-      (([1], s), t)
-    else if c =? 23 then (fin enc_bytes (fb_escape_ascii s), t)
-    else if c =? 24 then (fin enc_bytes (debug_fmt SIZE chk s), t)
-    else if c =? 25 then (fin (fun _ => []) (wrote chk (hd 0 t) s), tl t)
-    else (([], s), [])
+    else if c =? 23 then (Some OEscapeAscii, t)
+    else if c =? 24 then (Some ODebug, t)
+    else if c =? 25 then (Some (OWritableWrote [] (hd 0 t)), tl t)
+    else (None, t)
+  end.
+
+(* one op: (result encoding, new state, remaining input); a panic yields [PANIC] and the state at the panic *)
+Definition run_op (SIZE : Z) (fuel : nat) (s : fb) (l : list Z) : (list Z * fb) * list Z :=
+  let '(o, r) := dec_op fuel l in
+  match o with
+  | Some o => (match step SIZE chk s o with Val v s' => (enc_obs v, s') | Panic s' => ([PANIC], s') end, r)
+  | None => (([1], s), r)      (* op 22: `let copy = buf;` (derive(Copy)) — structural identity *)
   end.
 
 Fixpoint run_ops (SIZE : Z) (fuel : nat) (s : fb) (l : list Z) : list Z :=
